@@ -136,6 +136,14 @@ func c01Sinks() []c01Sink {
 			return `<template include="outer.vuego" :w="v"></template>`
 		}},
 		{name: "layout-variable", files: comp2, page: true, tpl: func(a, b string) string { return `` }},
+		// elements whose content an HTML parser takes as raw text or RCDATA: a value must still not be able to end them
+		{name: "rawtext-xmp", tpl: func(a, b string) string { return `<xmp data-m="1">` + a + `{{ v }}` + b + `</xmp><p>after</p>` }},
+		{name: "rawtext-iframe", tpl: func(a, b string) string { return `<iframe data-m="1">` + a + `{{ v }}` + b + `</iframe><p>after</p>` }},
+		{name: "rawtext-noembed", tpl: func(a, b string) string { return `<noembed data-m="1">` + a + `{{ v }}` + b + `</noembed><p>after</p>` }},
+		{name: "rawtext-noframes", tpl: func(a, b string) string { return `<div v-for="x in vs"><noframes data-m="1">` + a + `{{ x }}` + b + `</noframes></div><p>after</p>` }},
+		{name: "rawtext-noscript", tpl: func(a, b string) string { return `<div v-if="yes"><noscript data-m="1">` + a + `{{ v }}` + b + `</noscript></div><p>after</p>` }},
+		{name: "rcdata-textarea", tpl: func(a, b string) string { return `<textarea data-m="1">` + a + `{{ v }}` + b + `</textarea><p>after</p>` }},
+		{name: "rawtext-include-prop", files: map[string]string{"raw.vuego": `<xmp data-m="1">[{{ u }}]</xmp><p>after</p>`}, tpl: func(a, b string) string { return `<template include="raw.vuego" :u="v"></template>` }},
 		{name: "chain-branch-v-text", tpl: func(a, b string) string { return `<p v-if="no">n</p><p data-m="1" v-else v-text="v">old</p>` }},
 	}
 }
@@ -338,6 +346,10 @@ func runC01(r *Run) {
 	for _, w := range words {
 		values = append(values, w, "x"+w+"y")
 	}
+	// the end tag of every element whose content a parser reads as raw text or RCDATA, followed by markup
+	for _, t := range []string{"xmp", "iframe", "noembed", "noframes", "noscript", "textarea", "title", "script", "style", "plaintext"} {
+		values = append(values, "</"+t+"><img src=x onerror=alert(1)>", "a</"+t+" ><b>x")
+	}
 	for i := 0; i < 60; i++ {
 		var sb strings.Builder
 		for j, k := 0, 3+r.Rng.Intn(12); j < k; j++ {
@@ -396,6 +408,12 @@ func runC01(r *Run) {
 					want = "[" + v + "]"
 				case "for-root":
 					want = v
+				}
+				if strings.HasPrefix(sk.name, "rawtext-") {
+					want = sink // a parser does not decode references in raw text: the escaped value is seen as written
+				}
+				if sk.name == "rawtext-include-prop" && (strings.TrimSpace(v) == "" || strings.HasPrefix(v, "{") || strings.HasPrefix(v, "[")) {
+					want = sink
 				}
 				if sk.attr != "" && strings.TrimSpace(v) == "" && (sk.name == "attr-bound" || sk.name == "for-child-attr" || sk.name == "for-root" || sk.name == "include-bound-prop-attr") {
 					want = sink // a falsy bound value omits the attribute (C14)
